@@ -4,6 +4,7 @@ import (
 	"context"
 	"encoding/json"
 	"fmt"
+	mclisters "metacontroller/pkg/client/generated/lister/metacontroller/v1alpha1"
 	"os"
 	"testing"
 	"time"
@@ -181,6 +182,23 @@ func newC20CompositeDriver(env *vw.C20Env) *c20CompositeDriver {
 		ssaOptions:        &common.ApplyOptions{Strategy: common.ApplyStrategyDynamicApply},
 		logger:            logr.Discard(),
 	}}
+}
+
+// c09GateDriver: a Metacontroller wired like NewMetacontroller does it, with the given revision lister/informer.
+type c09GateDriver struct{}
+
+func (c09GateDriver) StartInstance(env *vw.C20Env, lister mclisters.ControllerRevisionLister, informer cache.SharedIndexInformer, name string) (func(), error) {
+	d := newC20CompositeDriver(env)
+	d.mc.revisionLister = lister
+	d.mc.revisionInformer = informer
+	if err := d.Reconcile(name); err != nil {
+		return nil, err
+	}
+	return func() {
+		for _, pc := range d.mc.parentControllers {
+			pc.Stop()
+		}
+	}, nil
 }
 
 func (d *c20CompositeDriver) Reconcile(name string) error {
